@@ -6,6 +6,7 @@
 //
 #include <cstdlib>
 #include <sstream>
+#include <stdexcept>
 #include <boost/algorithm/string.hpp>
 #include <rime/service.h>
 #include <rime/algo/dynamics.h>
@@ -37,7 +38,13 @@ bool UserDbValue::Unpack(const string& value) {
       if (k == "c") {
         commits = std::stoi(v);
       } else if (k == "d") {
-        dee = (std::min)(10000.0, std::stod(v));
+        // unlike std::stod, strtod does not fail on a value that underflows
+        // to a subnormal number, which a long decayed entry may hold.
+        char* end = nullptr;
+        double d = std::strtod(v.c_str(), &end);
+        if (end == v.c_str())
+          throw std::invalid_argument("d");
+        dee = (std::min)(10000.0, d);
       } else if (k == "t") {
         tick = std::stoul(v);
       }
